@@ -2,7 +2,9 @@
 (***************************************************************************)
 (* C11: judges what the real codec did with every case of the universe       *)
 (* (harness/edffam: the case built as a Go value, edf.Encode, edf.Decode,    *)
-(* under five cache configurations built like net/handshake builds them).    *)
+(* under five cache configurations built like net/handshake builds them;     *)
+(* and the case sent from one real node to a process of another one, inside   *)
+(* an envelope and as the message itself: configurations wire, wiretop).      *)
 (*  RoundTrip        what the encoder accepted decodes, to an equal value of  *)
 (*                   the same type, leaving no byte                           *)
 (*  ExactConsumption with foreign bytes behind the encoding the decoder       *)
@@ -35,7 +37,7 @@ RECURSIVE FirstBad(_, _, _, _)
 FirstBad(c, rs, i, repr) == IF i > Len(rs) THEN "" ELSE LET j == JudgeRes(c, rs[i], repr) IN IF j # "" THEN j ELSE FirstBad(c, rs, i + 1, repr)
 Drift(c, rs, repr) ==
   [over |-> IF repr THEN Cardinality({i \in 1..Len(rs) : rs[i].enc # "ok"}) ELSE 0,
-   len |-> Cardinality({i \in 1..Len(rs) : rs[i].enc = "ok" /\ rs[i].len # Bytes(EncTyped(c.t, c.v, rs[i].cfg).t)})]
+   len |-> Cardinality({i \in 1..Len(rs) : rs[i].enc = "ok" /\ rs[i].len > 0 /\ rs[i].len # Bytes(EncTyped(c.t, c.v, rs[i].cfg).t)})]
 
 TInit == l = 1 /\ mismatch = "" /\ TLCSet(1, 1) /\ TLCSet(2, <<>>) /\ TLCSet(3, [over |-> 0, len |-> 0, lenline |-> 0])
 TNext ==
